@@ -92,7 +92,9 @@ def option_menu(seed):
         "-elevrange": [("-elevrange", "1250,1500")],
         "-obsrange": [("-obsrange", "0.5,2")],
         "-c": [("-c", "<clim>"), ("-C", "<clim>")],
-        "-T": [("-T", "24"), ("-T", "13", "-Tagg", "max"), ("-T", "48", "-Tx", "time", "-Tagg", "sum")],
+        # "-Tagg: a number between 0 and 1 returns a specific quantile (e.g. 0.5 is the median)": the same statistic as the named one, also for
+        # windows that contain a missing value
+        "-T": [("-T", "24"), ("-T", "13", "-Tagg", "max"), ("-T", "48", "-Tx", "time", "-Tagg", "sum"), ("-T", "24", "-Tagg", "0.5"), ("-T", "25", "-Tagg", "1")],
         "-leg": [("-leg", "first_sys,second")],
         "-acc": [("-acc",)],
         "-fcst": [("-fcst", "crps"), ("-obs", "fcst"), ("-fcst", "Tmax")],
@@ -162,6 +164,10 @@ def interpret(groups, metric, axis, seed, inputs, clim, r_list=None):
             kw["agg_len"] = int(g[1])
             rest = dict(zip(g[2::2], g[3::2]))
             kw["agg_method"] = rest.get("-Tagg", "mean")
+            try:
+                kw["agg_method"] = float(kw["agg_method"])
+            except ValueError:
+                pass
             kw["agg_axis"] = rest.get("-Tx", "leadtime")
         elif f == "-leg":
             pres["legend"] = [x.replace("_", " ") for x in g[1].split(",")]
